@@ -267,6 +267,32 @@ REMOVE_COLLISIONS = norm("""
         }
         filtered_solutions
 """)
+# the same filter written with iterator adaptors (into_iter / filter / collect keep the order), the kinematics reference taken inline
+# or bound to a local first, any names for the locals
+_ID = r"[A-Za-z_][A-Za-z0-9_]*"
+REMOVE_COLLISIONS_ITER = [
+    re.compile(r"^(?:let (?P<k>" + _ID + r") = self \. kinematics \. as_ref \( \) ; )?"
+               r"solutions \. into_iter \( \) \. filter \( \| (?P<s>" + _ID + r") \| ! self \. body \. collides \( (?:& )?(?P=s) , "
+               r"(?P<kk>self \. kinematics \. as_ref \( \)|" + _ID + r") \) \) \. collect \( \)$"),
+    re.compile(r"^let mut (?P<f>" + _ID + r") = Vec :: with_capacity \( solutions \. len \( \) \) ; "
+               r"for (?P<s>" + _ID + r") in solutions \{ if ! self \. body \. collides \( & (?P=s) , self \. kinematics \. as_ref \( \) \) "
+               r"\{ (?P=f) \. push \( (?P=s) \) ; \} \} (?P=f)$"),
+]
+
+
+def is_order_preserving_filter(nb):
+    if nb == REMOVE_COLLISIONS:
+        return True
+    for rx in REMOVE_COLLISIONS_ITER:
+        m = rx.match(nb)
+        if m:
+            d = m.groupdict()
+            if "kk" in d and d["kk"] and not d["kk"].startswith("self") and d["kk"] != d.get("k"):
+                return False                     # the second argument must be the robot's own kinematics
+            return True
+    return False
+
+
 LINEAR_AXIS_MATCH = norm("""
         let cart_translation = match self.axis {
             0 => Translation3::new(distance, 0.0, 0.0),
@@ -287,7 +313,7 @@ def fn_body(src, header, name):
 def shape_extras(src):
     """remove_collisions (template) and the constructor stack of KinematicsWithShape"""
     _, body = fn_body(src, "impl KinematicsWithShape {", "remove_collisions")
-    if norm(body) != REMOVE_COLLISIONS:
+    if not is_order_preserving_filter(norm(body)):
         raise Refuse("remove_collisions is not the recognised order-preserving filter loop")
     _, body = fn_body(src, "impl KinematicsWithShape {", "create_robot_with_base_and_tool")
     want = norm("""
